@@ -86,7 +86,12 @@ pub fn run(ctx: &Ctx) -> i32 {
     });
     let mut raw = Collector::new(); let (mut ok, mut fail) = (0, 0); let mut samples = vec![];
     for a in accs { raw.merge(a.col); ok += a.ok; fail += a.fail; samples.extend(a.samples); }
-    let col = attribute("C03", raw);
+    let mut col = attribute("C03", raw);
+    // ---------- currency dimension: every ISO 4217 code x {max decimals, zero-padded, whole} in every
+    // currency-carrying occurrence of one accepted minimal and one accepted maximal shape per type
+    let (cn, cacc) = currency_sweep(&all);
+    ev.set("currency_sweep_evaluations", json!(cn));
+    col.merge(cacc);
     ev.set("states", json!(states)); ev.set("transitions", json!(transitions));
     ev.set("traces_validated_against_impl", json!(n));
     ev.set("evaluations", json!(n));
@@ -103,38 +108,96 @@ pub fn run(ctx: &Ctx) -> i32 {
     super::finish(ev, &col)
 }
 
+/// offset of the 3-letter currency inside the content of a currency-carrying kind
+fn ccy_offset(kind: &str, content: &str) -> Option<usize> {
+    match kind {
+        "32A" | "32C" | "32D" => Some(6),
+        "32B" | "33B" | "71F" | "71G" | "34F" => Some(0),
+        "60F" | "60M" | "62F" | "62M" | "64" | "65" => Some(7),
+        "90C" | "90D" => Some(content.bytes().take_while(|b| b.is_ascii_digit()).count()),
+        _ => None,
+    }
+}
+
+fn currency_sweep(all: &[Msg]) -> (u64, Collector) {
+    use crate::spec::{iso4217, m1};
+    let mut picks: Vec<&Msg> = vec![];
+    for mt in crate::common::reg::MT_CODES {
+        let ok: Vec<&Msg> = all.iter().filter(|m| { let a: &str = m.mt; let b: &str = mt; a == b } && matches!(eval(m), Outcome::Ok)).take(4000).collect();
+        if let Some(m) = ok.iter().find(|m| m.base == "min" && m.deviations == 0) { picks.push(m); }
+        if let Some(m) = ok.iter().filter(|m| m.base == "max").max_by_key(|m| m.occs.len()) { picks.push(m); }
+    }
+    let mut jobs: Vec<(usize, usize, &'static str, String)> = vec![];
+    for (pi, m) in picks.iter().enumerate() {
+        for (oi, o) in m.occs.iter().enumerate() {
+            let Some(off) = ccy_offset(&o.kind, &o.content) else { continue; };
+            if o.content.len() < off + 3 { continue; }
+            // 34F carries an optional D/C sign after the currency: keep whatever precedes the amount
+            let rest = &o.content[off + 3..];
+            let sign: String = rest.chars().take_while(|c| c.is_ascii_alphabetic()).collect();
+            for (c, d) in iso4217::TABLE.iter() {
+                if *d == 255 { continue; }
+                let d = *d as usize;
+                let mut amts = vec![];
+                if d == 0 { amts.push("1250000".to_string()); } else {
+                    amts.push(format!("1250000,{}", "505050"[..d].to_string()));      // all decimals used
+                    amts.push(format!("980000,{}", "0".repeat(d)));                    // zero-padded whole amount
+                    amts.push(format!("7,{}", &"0001"[4 - d.min(4)..]));               // smallest unit
+                }
+                for a in amts { jobs.push((pi, oi, c, format!("{}{}{}{}", &o.content[..off], c, sign, a))); }
+            }
+        }
+    }
+    let kinds = m1::kinds();
+    let accs = par::par_for(jobs.len(), 64, || (0u64, Collector::new()), |i, a| {
+        let (pi, oi, c, content) = &jobs[i];
+        let base = picks[*pi];
+        let k = kinds.iter().find(|k| k.tag == base.occs[*oi].kind);
+        if let Some(k) = k { if !matches!((k.rec)(content), m1::V::Accept(_)) { return; } }
+        let mut m = (*base).clone();
+        m.occs[*oi].content = content.clone();
+        a.0 += 1;
+        if let Outcome::Fail { clause, locus, detail } = eval(&m) {
+            a.1.add(format!("C03/MT{}/{}/{}/ccy:{}:{}", m.mt, clause, locus, base.occs[*oi].tag, c), i as u64, || detail.clone(), || json!({"mt": m.mt, "block4": m.text_lf(), "changed": {"tag": base.occs[*oi].tag, "content": content}}));
+        }
+    });
+    let mut n = 0; let mut col = Collector::new();
+    for (k, c) in accs { n += k; col.merge(c); }
+    (n, col)
+}
+
 pub fn distinct_shapes(all: &[Msg]) -> usize {
     let mut s = std::collections::HashSet::new();
     for m in all { s.insert(format!("{}:{}", m.mt, m.describe())); }
     s.len()
 }
 
-/// Culprit attribution: a failing trace with several deviations is attributed to a single
-/// deviation that already fails alone (same type, base and clause); otherwise to all of them.
+/// Culprit attribution. A failing trace is identified by (type, clause, locus) and the *minimal*
+/// set of deviations that already fails in the same way: traces are processed by ascending number
+/// of deviations, and a trace whose deviation set contains an already recorded minimal set (same
+/// base, or any base for a non-empty set) is counted under that set. So one defect gives one key
+/// whatever the exploration depth.
 pub fn attribute(prop: &str, raw: Collector) -> Collector {
-    use std::collections::HashMap;
-    let mut singles: HashMap<(String, String, String, String), String> = HashMap::new(); // (mt, clause, base, dev) -> locus
-    let mut base_fail: HashMap<(String, String, String), String> = HashMap::new();
-    for f in raw.map.values() {
+    use std::collections::{BTreeMap, BTreeSet};
+    struct F<'a> { mt: &'a str, clause: &'a str, locus: String, base: &'a str, devs: BTreeSet<String>, f: &'a crate::common::findings::Finding }
+    let mut fs: Vec<F> = raw.map.values().map(|f| {
         let p: Vec<&str> = f.key.splitn(5, '|').collect();
-        let devs: Vec<&str> = if p[4].is_empty() { vec![] } else { p[4].split('+').collect() };
-        if devs.is_empty() { base_fail.insert((p[0].into(), p[1].into(), p[3].into()), p[2].into()); }
-        if devs.len() == 1 { singles.insert((p[0].into(), p[1].into(), p[3].into(), devs[0].into()), p[2].into()); }
-    }
+        let devs: BTreeSet<String> = if p[4].is_empty() { BTreeSet::new() } else { p[4].split('+').map(strip_idx).collect() };
+        F { mt: p[0], clause: p[1], locus: strip_idx(p[2]), base: p[3], devs, f }
+    }).collect();
+    fs.sort_by(|a, b| (a.devs.len(), &a.f.key).cmp(&(b.devs.len(), &b.f.key)));
+    // (mt, clause, locus) -> minimal sets [(base, devs)]
+    let mut minimal: BTreeMap<(String, String, String), Vec<(String, BTreeSet<String>)>> = BTreeMap::new();
     let mut out = Collector::new();
-    for f in raw.map.values() {
-        let p: Vec<&str> = f.key.splitn(5, '|').collect();
-        let (mt, clause, locus, base) = (p[0], p[1], p[2], p[3]);
-        let devs: Vec<&str> = if p[4].is_empty() { vec![] } else { p[4].split('+').collect() };
-        let culprit: String = if base_fail.contains_key(&(mt.into(), clause.into(), base.into())) { format!("base:{base}") }
-            else if let Some(dv) = devs.iter().find(|dv| singles.contains_key(&(mt.into(), clause.into(), base.into(), dv.to_string()))) { dv.to_string() }
-            else if devs.is_empty() { format!("base:{base}") } else { devs.join("+") };
-        // sequence-occurrence indices are incidental: strip "@<n>" to "@seq"
-        let culprit = strip_idx(&culprit);
-        let key = format!("{prop}/MT{mt}/{clause}/{}:{}", strip_idx(locus), culprit);
-        let (what, case, order) = (f.what.clone(), f.case.clone(), f.order);
+    for x in &fs {
+        let slot = minimal.entry((x.mt.into(), x.clause.into(), x.locus.clone())).or_default();
+        let found = slot.iter().find(|(b, m)| m.is_subset(&x.devs) && (b == x.base || !m.is_empty())).cloned();
+        let (base, set) = match found { Some(m) => m, None => { slot.push((x.base.to_string(), x.devs.clone())); (x.base.to_string(), x.devs.clone()) } };
+        let culprit = if set.is_empty() { format!("base:{base}") } else { set.iter().cloned().collect::<Vec<_>>().join("+") };
+        let key = format!("{prop}/MT{}/{}/{}:{}", x.mt, x.clause, x.locus, culprit);
+        let (what, case, order) = (x.f.what.clone(), x.f.case.clone(), x.f.order);
         out.add(key.clone(), order, || what, || case);
-        if let Some(g) = out.map.get_mut(&key) { g.count += f.count - 1; }
+        if let Some(g) = out.map.get_mut(&key) { g.count += x.f.count - 1; }
     }
     out
 }
